@@ -130,14 +130,14 @@ def run_C03(tier, seed):
         # completion reported by a strategy started at the root (start None or 0) => minimal trap spaces exact
         for idx, (op, st) in enumerate(zip(hist, w["steps"][1:]), start=1):
             complete = (op[0] in ("bfs", "dfs", "min") and op[1] in (None, 0) and st["real_result"] == "true") or (op[0] == "skiprem" and st["real_result"].startswith("nat:")) \
-                       or (op[0] in ("block", "aseeds") and st["real_result"] == "true" and idx == 1)
-            if complete and all(is_plain(o) or o[0] in ("skiprem", "min", "block", "aseeds") for o in hist[:idx]):
+                       or (op[0] in ("block", "aseeds", "scc") and st["real_result"] == "true" and idx == 1)
+            if complete and all(is_plain(o) or o[0] in ("skiprem", "min", "block", "aseeds", "scc") for o in hist[:idx]):
                 got = sorted(st["meta"]["minimal"])
                 if got != sorted(w["mintraps"]):
                     out.append({"sig": "minimal-trap-spaces-" + op[0], "what": f"after {op} (returned {st['real_result']}) minimal_trap_spaces() = {got}, inclusion-minimal trap spaces = {sorted(w['mintraps'])}", "step": idx}); break
         return out
     def gen_kinds():
-        return ("expand", "bfs", "dfs", "min", "target", "skip", "skiprem", "block", "aseeds")
+        return ("expand", "bfs", "dfs", "min", "target", "skip", "skiprem", "block", "aseeds", "scc")
     return _history_run("C03", tier, seed, gen_kinds(), 300, 5000, 5, 8, (100000,), pred, _nontrivial_hist,
                         "random plain histories (with limits and start nodes) containing complete strategies from the root (bfs/dfs/minimal-space with and without skip_ignored) or completed by skip_remaining; predicate compares minimal_trap_spaces() with the brute-force inclusion-minimal trap spaces whenever a root strategy returns True; non-trivial = more than 2 nodes")
 
